@@ -30,6 +30,8 @@ CHECK_DEADLOCK FALSE
 def _c15(prop, tier):
     code, _, _ = smallfam.run(prop, tier, mc_module="GuestClient_MC", mc_cfg=C15_CFG, driver="client", trace_module="GuestClient_Trace",
                               key_fn=_key_generic,
+                              # two-call histories first: they carry their own past, so a rejection among them reproduces in isolation
+                              case_fn=lambda cases, t: sorted(cases, key=lambda c: c.get("prior") != "good"),
                               required_actions=("Start", "SendReport", "SendQuote", "ReturnData", "ReturnErr", "AskSupported", "ProviderQuote", "Fallback"),
                               assumptions=["the scripted client.Device / client.QuoteProvider stand for the kernel device and configfs-tsm",
                                            "ioctl numbers are re-derived from the Linux _IOWR definition", "inotify reports the fall-back's open of the configured device path"])
@@ -45,10 +47,10 @@ RTMR_INV = "TypeOK" and "RefusedWritesNothing OneEntryPerIndex ExactlyOneExtend 
 
 def _rtmr_cfg(tier):
     if tier == "thorough":
-        consts = ("  Indices <- IndicesThorough\n  DigestLens = {47, 48, 49}\n  Hashes = {\"sha384\", \"sha256\"}\n  MaxCalls = 3\n"
+        consts = ("  Indices <- IndicesThorough\n  DigestLens = {47, 48, 49}\n  Hashes = {\"sha384\", \"sha256\", \"sha3_384\"}\n  MaxCalls = 3\n"
                   "  InitStates = {\"empty\", \"unrelated\", \"unbound\", \"bound0\", \"two\"}\n")
     else:
-        consts = ("  Indices <- IndicesQuick\n  DigestLens = {0, 47, 48, 49, 64}\n  Hashes = {\"sha384\", \"sha256\", \"sha512\"}\n  MaxCalls = 2\n"
+        consts = ("  Indices <- IndicesQuick\n  DigestLens = {0, 47, 48, 49, 64}\n  Hashes = {\"sha384\", \"sha256\", \"sha3_384\", \"zero\"}\n  MaxCalls = 2\n"
                   "  InitStates = {\"empty\", \"unrelated\", \"unbound\", \"bound0\", \"two\"}\n")
     return "CONSTANTS\n" + consts + "SPECIFICATION Spec\nINVARIANTS " + RTMR_INV + "\nCHECK_DEADLOCK FALSE\n"
 
@@ -56,9 +58,22 @@ def _rtmr_cfg(tier):
 RTMR_TRACE_CONSTS = ("  Indices = {0}\n  DigestLens = {48}\n  Hashes = {\"sha384\"}\n  MaxCalls = 1000\n  InitStates = {\"empty\"}\n")
 
 
+def _c17_cases(cases, tier):
+    # every value of crypto.Hash (h0..h31: registered or not, linked in or not) once on its own and once after an accepted request
+    ok = dict(kind="log", index=1, dlen=48, hash="sha384", log="nonempty")
+    for n in range(32):
+        if n == 6:      # crypto.SHA384 itself
+            continue
+        r = dict(kind="log", index=2, dlen=48, hash="h%d" % n, log="nonempty")
+        cases.append(dict(init="empty", hist=[r]))
+        cases.append(dict(init="unrelated", hist=[ok, r]))
+        cases.append(dict(init="empty", hist=[r, ok]))
+    return cases
+
+
 def _c17(prop, tier):
     code, _, _ = smallfam.run(prop, tier, mc_module="Rtmr_MC", mc_cfg=_rtmr_cfg(tier), driver="rtmr", trace_module="Rtmr_Trace",
-                              trace_consts=RTMR_TRACE_CONSTS, key_fn=_key_generic, mc_workers=1,
+                              trace_consts=RTMR_TRACE_CONSTS, key_fn=_key_generic, mc_workers=1, case_fn=_c17_cases,
                               required_actions=("Validate", "ReadDir", "ReadIndex", "NoneBound", "MkdirTemp", "WriteIndex", "WriteDigest"),
                               assumptions=["the in-memory configfsi.Client stands for configfs-tsm: an entry is bound by writing its index attribute and extended by writing digest",
                                            "go-configfs-tsm v0.3.2 (pinned dependency) performs the TSM sub-steps"])
@@ -110,7 +125,10 @@ def _c20(prop, tier):
             unit, t, m, i2, real = g
             if real:
                 for c in r.cases:
-                    cases.append(dict(timeout=t * unit, max=m * unit, fails=c["fails"], init2=2000))
+                    # what a success carries: every case with the usual response, and with one of the unusual ones in turn
+                    shapes = ["full", ("emptyBody", "nilBody", "nilHeaders", "allEmpty")[len(cases) % 4]] if c["fails"] >= 0 else ["full"]
+                    for sh in shapes:
+                        cases.append(dict(timeout=t * unit, max=m * unit, fails=c["fails"], init2=2000, resp=sh))
     for i, c in enumerate(cases):
         c["id"] = i + 1
     cp = _os.path.join(wd, "cases.jsonl")
@@ -153,7 +171,7 @@ def _c20(prop, tier):
             idx = smallfam.unconsumed_index(cur)
             evs, j, kk = smallfam.call_block(cur_p, idx)
             call = evs[0]
-            key = "timeout=%d,max=%d,fails=%d" % (call["input"]["timeout"], call["input"]["max"], call["input"]["fails"])
+            key = "timeout=%d,max=%d,fails=%d,resp=%s" % (call["input"]["timeout"], call["input"]["max"], call["input"]["fails"], call["input"].get("resp", "full"))
             rp = C.write_replay(prop, str(call["case"]), dict(property=prop, seed=C.seed(), tier=tier, case=call["input"], observed=evs, key=key))
             # timing: reproduce twice; an alarm that does not reproduce is an infrastructure failure (exit 2)
             if not smallfam.reproduce(prop, rp, binary, wd, "retry", "Retry_Trace", "TSpec", consts(k), tier):
@@ -206,7 +224,7 @@ def _policy(prop, tier, mode):
     focus = POLICY_FOCUS_THOROUGH if tier == "thorough" else POLICY_FOCUS_QUICK
     code, _, _ = smallfam.run(prop, tier, mc_module="Policy_MC", mc_cfg=_policy_cfg(tier, focus), driver="policy", trace_module="Policy_Trace",
                               trace_consts="  K = 0\n  Focus = {}\n", key_fn=_key_generic,
-                              case_fn=lambda cases, t: [c for c in cases if c["mode"] == mode],
+                              case_fn=lambda cases, t: [c for c in cases if c["mode"].startswith(mode)],
                               required_actions=POLICY_ACTIONS,
                               assumptions=["quotes are structurally valid generated quotes with seeded random contents; expectations are derived from the quote by the stated rule of each abstract state",
                                            "the fixed-0 / fixed-1 bit sets of XFAM and TD_ATTRIBUTES are the repository's constants, written as bit sets in spec/Policy.tla"])
@@ -379,15 +397,15 @@ TABLE["C10"] = dict(run=_c10, replay=_c10_replay)
 
 
 # ------------------------------------------------------------------------------------------
-HIST_DIMS_QUICK = ["qsig", "bind", "qeSigner", "leafRole", "leafPki", "pool", "tcbSigner", "qeSignerDoc", "tcbExtra", "tcbContent", "modBranch", "qeContent",
+HIST_DIMS_QUICK = ["mut", "qsig", "bind", "qeSigner", "leafRole", "leafPki", "pool", "tcbSigner", "qeSignerDoc", "tcbExtra", "tcbContent", "modBranch", "qeContent",
                    "pckCrlRev", "rootCrlRev", "pckCrlSigner", "time"]
 
 
-def _hist_cfg(tier):
-    dims = "DimNames" if tier == "thorough" else "{" + ", ".join('"%s"' % d for d in HIST_DIMS_QUICK) + "}"
-    if tier == "thorough":
+def _hist_cfg(tier, dims=None):
+    if dims is None and tier == "thorough":
         return ('CONSTANTS\n  K = 0\n  Focus = {}\n  OptSet = "levels"\n  NowVals = {"set"}\n  HistDims <- DimNames\n'
                 "SPECIFICATION HSpec\nINVARIANTS StoreIsCurrent HistoryFree ExportCase\nCHECK_DEADLOCK FALSE\n")
+    dims = "{" + ", ".join('"%s"' % d for d in (dims or HIST_DIMS_QUICK)) + "}"
     return ('CONSTANTS\n  K = 0\n  Focus = {}\n  OptSet = "levels"\n  NowVals = {"set"}\n  HistDims = %s\n'
             "SPECIFICATION HSpec\nINVARIANTS StoreIsCurrent HistoryFree ExportCase\nCHECK_DEADLOCK FALSE\n" % dims)
 
@@ -411,11 +429,23 @@ def _hist_cases(cases, tier):
     return cases + [dict(timed=True, shared=True, fault={}, hist=[]), dict(timed=True, shared=False, fault={}, hist=[])]
 
 
-def _hist_run(prop, tier):
-    return smallfam.run(prop, tier, part=True, case_fn=_hist_cases, mc_module="VerifyHistory_MC", mc_cfg=_hist_cfg(tier), driver="history", trace_module="TdxVerify_Judge", trace_spec="JSpec",
+def _hist_run(prop, tier, dims=None):
+    return smallfam.run(prop, tier, part=True, case_fn=_hist_cases if dims is None else None, mc_module="VerifyHistory_MC", mc_cfg=_hist_cfg(tier, dims), driver="history", trace_module="TdxVerify_Judge", trace_spec="JSpec",
                         trace_consts=HIST_TRACE_CONSTS, key_fn=_key_hist, required_actions=("Call",), max_events=24000,
-                        assumptions=["worlds of one history share a seed: named keys and deterministic signatures coincide, so a cache or left-over state keyed on shared material would be hit"],
+                        assumptions=["worlds of one history share a seed: named keys, certificates and deterministic signatures coincide byte for byte, so a cache or left-over state keyed on shared material would be hit"],
                         rule="every history (first call on the honest twin or on another honest platform, second call on any of the three worlds, all option levels, shared or fresh Options) is run in one process; every call is judged by the single-call properties")
+
+
+# C01..C07 are statements about every call, not about the first call of a process: each is also decided over two-call
+# histories whose faulty world deviates in that property's own dimensions.
+HIST_FOCUS_EXTRA = {"C01": ["mut"]}
+
+
+def _vf_hist(prop, tier):
+    t0 = _time.time()
+    _, v1, c1 = verifyfam.run(prop, tier, part=True)
+    _, v2, c2 = _hist_run(prop, tier, dims=verifyfam.CFG[prop]["focus"] + HIST_FOCUS_EXTRA.get(prop, []))
+    return smallfam.combine(prop, tier, [("worlds", v1, c1), ("histories", v2, c2)], t0)
 
 
 def _c12(prop, tier):
@@ -433,6 +463,8 @@ def _c12_replay(prop, path):
 
 
 TABLE["C12"] = dict(run=_c12, replay=_c12_replay)
+for _p in ("C01", "C02", "C03", "C05", "C06"):
+    TABLE[_p] = dict(run=_vf_hist, replay=_c12_replay)
 
 # ------------------------------------------------------------------------------------------
 def _tcbl_cfg(tier):
@@ -477,18 +509,22 @@ def _c04(prop, tier):
     t0 = _time.time()
     _, v1, c1 = verifyfam.run(prop, tier, part=True)
     _, v2, c2 = _tcbl_run(prop, tier, "tcb")
-    return smallfam.combine(prop, tier, [("worlds", v1, c1), ("level-selection", v2, c2)], t0)
+    _, v3, c3 = _hist_run(prop, tier, dims=verifyfam.CFG[prop]["focus"])
+    return smallfam.combine(prop, tier, [("worlds", v1, c1), ("level-selection", v2, c2), ("histories", v3, c3)], t0)
 
 
 def _c07(prop, tier):
     t0 = _time.time()
     _, v1, c1 = verifyfam.run(prop, tier, part=True)
     _, v2, c2 = _tcbl_run(prop, tier, "qe")
-    return smallfam.combine(prop, tier, [("worlds", v1, c1), ("level-selection", v2, c2)], t0)
+    _, v3, c3 = _hist_run(prop, tier, dims=verifyfam.CFG[prop]["focus"])
+    return smallfam.combine(prop, tier, [("worlds", v1, c1), ("level-selection", v2, c2), ("histories", v3, c3)], t0)
 
 
 def _c0407_replay(prop, path):
     rp = _json.load(open(path))
+    if "hist" in (rp.get("case") or {}):
+        return _c12_replay(prop, path)
     if "kind" in (rp.get("case") or {}):
         return smallfam.replay(prop, path, driver="tcblevels", trace_module="TcbLevels_Trace", trace_consts=TCBL_TRACE_CONSTS)
     return verifyfam.replay(prop, path)
@@ -586,7 +622,7 @@ CCEL_MEASURED = "{0, 1, 2}"   # cross-checked against the log itself at run time
 
 def _key_ccel(call, evs):
     i = call["input"]
-    return "v=%s,p=%s,f=%s,lvl=%s,ld=%s,cf=%s" % (i["v"], i["p"], i["f"], i["lvl"], i.get("ld"), i.get("cf"))
+    return "v=%s,p=%s,f=%s,lvl=%s,ld=%s,cf=%s,prior=%s" % (i["v"], i["p"], i["f"], i["lvl"], i.get("ld"), i.get("cf"), i.get("prior", "none"))
 
 
 def _c18(prop, tier):
